@@ -404,7 +404,8 @@ type fmtCase struct {
 	Pos     subPic  `json:"pos"`
 	Neg     *subPic `json:"neg,omitempty"`
 	Invalid string  `json:"invalid,omitempty"` // a picture outside the grammar: must be an error
-	Options string  `json:"options,omitempty"` // "" | "swap" (decimal ',' grouping '.') | "arabic" (zero digit U+0660)
+	Options string  `json:"options,omitempty"` // "" | "swap" (decimal ',' grouping '.') | "arabic" (zero digit U+0660) | "custom" | "minus" (minus sign only: same picture string as without options)
+	Warm    bool    `json:"warm,omitempty"`    // history: the same picture string is used under the default format first (result not judged)
 }
 
 func (c fmtCase) picture() string {
@@ -455,6 +456,8 @@ func (c fmtCase) expr() string {
 		opts = `, {"zero-digit": "٠"}`
 	case "custom":
 		opts = c18CustomOptions
+	case "minus":
+		opts = `, {"minus-sign": "¬"}`
 	}
 	return "$formatNumber(x, " + string(b) + opts + ")"
 }
@@ -549,6 +552,11 @@ func fmtReadBack(c fmtCase, out string) string {
 			}
 			return r
 		}, out)
+	case "minus":
+		if neg && c.Neg == nil && strings.HasPrefix(out, "-") {
+			return `the numeral starts with "-" although the options make the minus sign "¬"`
+		}
+		out = strings.ReplaceAll(out, "¬", "-")
 	case "custom":
 		// back to the standard characters (the standard ones must not appear)
 		for std, cu := range c18Custom {
@@ -771,6 +779,12 @@ func ratRoundHalfEven(r *big.Rat, d int) *big.Rat {
 
 func fmtRun(is *isolator, c fmtCase) (string, string) {
 	in := val.JSON(val.O(map[string]val.Value{"x": val.N(c.X)}))
+	if c.Warm && c.Options != "" {
+		// the same picture string under the default format, then - judged -
+		// under the options: the analysis of a picture depends on both
+		b, _ := json.Marshal(c.picture())
+		is.Call("evalv", mustJSON(evalCase{Text: "$formatNumber(x, " + string(b) + ")", Input: in}))
+	}
 	r := is.Call("evalv", mustJSON(evalCase{Text: c.expr(), Input: in}))
 	switch r.Status {
 	case isoOK:
@@ -859,7 +873,7 @@ func genSubPic(t *rapid.T, label string) subPic {
 			s.HasPoint = false
 		}
 	}
-	fix := []string{"", "", "$", "x ", " units", "(", ")", "~", "EUR "}
+	fix := []string{"", "", "$", "x ", " units", "(", ")", "~", "EUR ", " items", "net ", " euro"}
 	s.Prefix = rapid.SampledFrom(fix).Draw(t, label+"Prefix")
 	s.Suffix = rapid.SampledFrom(fix).Draw(t, label+"Suffix")
 	switch rapid.IntRange(0, 9).Draw(t, label+"Kind") {
@@ -886,8 +900,14 @@ func genSubPic(t *rapid.T, label string) subPic {
 			s.Prefix, s.Suffix = "", ""
 		}
 	}
+	if s.Exp == "" && s.Pct == "" && strings.Count(s.Prefix+s.Suffix, "e") == 1 {
+		// one exponent-separator letter in the text around the digits of a
+		// picture without exponent or percent part is passive text ("0 items")
+		return s
+	}
 	if strings.ContainsAny(s.Prefix+s.Suffix, "eE") && s.Exp == "" {
-		// keep 'e' out of passive text: the port treats it as an exponent separator
+		// otherwise keep 'e' out of passive text: the port counts every such
+		// letter as an exponent separator when it validates the sub-picture
 		s.Prefix = strings.NewReplacer("e", "", "E", "").Replace(s.Prefix)
 		s.Suffix = strings.NewReplacer("e", "", "E", "").Replace(s.Suffix)
 	}
@@ -965,6 +985,11 @@ func TestC18_FormatNumber(t *testing.T) {
 			c.Options = "arabic"
 		case 2:
 			c.Options = "custom"
+		case 3:
+			c.Options = "minus"
+		}
+		if c.Options != "" {
+			c.Warm = rapid.Bool().Draw(rt, "warm")
 		}
 		switch rapid.IntRange(0, 9).Draw(rt, "xkind") {
 		case 0:
